@@ -156,7 +156,7 @@ def transport_block(case, extra=""):
     s += " -lengths %s\n" % " ".join(case["lens"])
     s += " -dispersivities %s\n" % " ".join(case["disps"])
     s += " -diffusion_coefficient %s\n" % case["diffc"]
-    s += " -time_step %s\n" % case["timest"]
+    s += " -time_step %s\n" % case.get("timest_text", case["timest"])
     s += " -flow_direction %s\n" % fl
     s += " -boundary_conditions %s %s\n" % (bc[case["bcf"]], bc[case["bcl"]])
     s += " -correct_disp %s\n" % ("true" if case["corrd"] else "false")
@@ -380,7 +380,7 @@ def coq_cfg(case):
 
 
 COQ_HEAD = """From Coq Require Import QArith ZArith List.
-From IPV.C11 Require Import Transport Checker.
+From IPV.C11 Require Import Transport Checker McdMix McdMixProofs.
 Import ListNotations.
 Open Scope Q_scope.
 """
@@ -708,6 +708,201 @@ def check_exact_shift(case, res):
     return dict(status="ok", detail="")
 
 
+# ----------------------------------------------------------------------------- MCD branch of init_mix: number of sub-steps
+
+def mcd_nmix(cfg, dmax, substeps):
+    """literal transcription of init_mix, `if (multi_Dflag)`, explicit (not implicit) diffusion, no stagnant zones.
+    returns (nmix, maxmix, factor*maxmix)"""
+    L, A = cfg["lens"], cfg["disps"]
+    n = len(L)
+    adv = cfg["ishift"] != 0
+    corr = Fr(1)
+    if cfg["corrd"] and adv:
+        if cfg["bcf"] == 3:
+            corr += Fr(1, n)
+        if cfg["bcl"] == 3:
+            corr += Fr(1, n)
+    dt = dmax * cfg["timest"]
+    m = [Fr(0)] * (n + 2)
+    m1 = [Fr(0)] * (n + 2)
+    dav = Fr(0)
+    maxmix = Fr(0)
+    for i in range(1, n + 1):
+        if i < n:
+            lav = (L[i] + L[i - 1]) / 2
+            mD = dt / (lav * lav)
+            if mD > maxmix:
+                maxmix = mD
+        if adv:
+            if i < n:
+                if A[i - 1] != 0:
+                    dav = L[i - 1] / A[i - 1]
+                if A[i] != 0:
+                    dav += L[i] / A[i]
+                if dav != 0:
+                    m1[i] = 2 * corr / dav
+            if i > 1:
+                if A[i - 1] != 0:
+                    dav = L[i - 1] / A[i - 1]
+                if A[i - 2] != 0:
+                    dav += L[i - 2] / A[i - 2]
+                if dav != 0:
+                    m[i] = 2 * corr / dav
+            if m[i] + m1[i] > maxmix:
+                maxmix = m[i] + m1[i]
+    if cfg["bcf"] == 1:
+        mD = 2 * dt / (L[0] * L[0])
+        if mD > maxmix:
+            maxmix = mD
+        if adv:
+            m[1] = 2 * A[0] / L[0] * corr
+            if m[1] + m1[1] > maxmix:
+                maxmix = m[1] + m1[1]
+    if cfg["bcl"] == 1:
+        mD = 2 * dt / (L[n - 1] * L[n - 1])
+        if mD > maxmix:
+            maxmix = mD
+        if adv:
+            m1[n] = 2 * A[n - 1] / L[n - 1] * corr
+            if m[n] + m1[n] > maxmix:
+                maxmix = m[n] + m1[n]
+    if maxmix == 0:
+        return 0, maxmix, Fr(0)
+    cb = cfg["bcf"] == 1 or cfg["bcl"] == 1
+    f = Fr(9, 4) if cb else Fr(3, 2)
+    k = 1 + (f * maxmix).__floor__()
+    if adv and cb and k < 2:
+        k = 2
+    if substeps > 1:
+        k = (k * substeps).__ceil__()
+    return k, maxmix, f * maxmix
+
+
+def run_mcd_inputs(jobs, timeout_each=120, workers=6):
+    """like vlib.run_inputs but through harness/c11_mcd.cpp, which also reports what init_mix saw (diffc_max, nmix, ...)"""
+    import concurrent.futures as cf
+    exe = vlib.build_harness("c11_mcd", ["c11_mcd.cpp"])
+    res = {}
+    if not jobs:
+        return res
+    dbp = os.path.join(vlib.DB, "phreeqc.dat")
+    with vlib.scratch("c11mcd") as d:
+        nb = max(1, min(workers * 2, len(jobs)))
+        batches = [list(range(len(jobs)))[k::nb] for k in range(nb)]
+
+        def run_batch(bi, idxs):
+            out = {}
+            todo = list(idxs)
+            att = 0
+            while todo:
+                att += 1
+                wd = os.path.join(d, "w%d_%d" % (bi, att))
+                os.makedirs(wd, exist_ok=True)
+                with open(os.path.join(wd, "jobs.tsv"), "w") as f:
+                    for i in todo:
+                        fn = os.path.join(wd, "in%05d.pqi" % i)
+                        open(fn, "w").write(jobs[i]["text"])
+                        f.write("%d\t%s\t%s\t\n" % (i, dbp, fn))
+                rc, so, se = vlib.sh([exe, os.path.join(wd, "jobs.tsv")], cwd=wd, timeout=timeout_each * len(todo) + 20)
+                done = set()
+                for line in so.split("\n"):
+                    if line.startswith("{"):
+                        try:
+                            r = json.loads(line)
+                        except Exception:
+                            continue
+                        out[int(r["job"])] = r
+                        done.add(int(r["job"]))
+                rest = [i for i in todo if i not in done]
+                if not rest:
+                    break
+                out[rest[0]] = {"timeout": rc == 124, "crash": rc != 124, "stderr": se[-1000:]}
+                todo = rest[1:]
+            return out
+
+        with cf.ThreadPoolExecutor(max_workers=workers) as ex:
+            for o in ex.map(lambda a: run_batch(*a), enumerate(batches)):
+                for i, r in o.items():
+                    res[jobs[i]["id"]] = r
+    return res
+
+
+def gen_mcd_stability(rng):
+    """explicit multicomponent diffusion with UNEQUAL cell lengths: the finest cells at the end / start / middle / anywhere,
+    time steps from below the stability limit to far above it, all boundary pairs, with and without advection"""
+    n = rng.choice([2, 3, 4, 5, 6, 8, 10, 12])
+    where = rng.choice(["end", "end", "start", "middle", "random", "equal"])
+    coarse = 10 ** rng.uniform(-1.5, 0.3)
+    ratio = rng.choice([0.1, 0.2, 0.3, 0.5])
+    nf = rng.choice([1, 2, 2, 3]) if n > 2 else 1
+    lens = [coarse * rng.uniform(0.9, 1.1) for _ in range(n)]
+    if where == "end":
+        idx = list(range(n - nf, n))
+    elif where == "start":
+        idx = list(range(0, nf))
+    elif where == "middle":
+        a = max(1, n // 2 - nf // 2)
+        idx = list(range(a, min(n - 1, a + nf)))
+    elif where == "random":
+        idx = rng.sample(range(n), min(n, nf))
+    else:
+        idx = []
+    for k in idx:
+        lens[k] = coarse * ratio * rng.uniform(0.95, 1.05)
+    lens = ["%.3g" % x for x in lens]
+    L = [float(x) for x in lens]
+    lavmin = min([(L[k] + L[k + 1]) / 2 for k in range(n - 1)] or [L[0]])
+    ishift = rng.choice([0, 0, 0, 1, -1])
+    bcs = [2, 2, 3, 1]
+    bcf, bcl = rng.choice(bcs), rng.choice(bcs)
+    por = round(rng.uniform(0.1, 0.5), 2)
+    dmax_est = 9.31e-9 * por
+    F = rng.choice([0.2, 0.6, 0.9, 2.0, 5.0, 12.0, 30.0])       # Fourier number of the finest interface for the whole time step
+    timest = "%.4g" % (F * lavmin * lavmin / dmax_est)
+    disps = ["%.3g" % (min(L) * 10 ** rng.uniform(-1.5, -0.3)) if ishift != 0 else "0" for _ in range(n)]
+    sub = rng.choice([None, None, None, "1.5", "2"])
+    case = dict(kind="mcd-stability", mode="mcd", n=n, ishift=ishift, bcf=bcf, bcl=bcl, corrd=rng.random() < 0.3, lens=lens, disps=disps,
+                diffc="0.3e-9", timest=timest, lattice=False, where=where, fourier_target=F, substeps=sub or "1")
+    case["timest_text"] = timest if sub is None else "%s sec %s" % (timest, sub)
+    case["shifts"] = rng.randint(1, 3)
+    case["soltext"] = [rich_solution(rng, k) for k in range(n + 2)]
+    case["cols"] = RICH_COLS
+    case["elcols"] = ["m" + e for e in RICH_ELS] + ["mH", "mO"]
+    case["ncell_rows"] = list(range(1, n + 1))
+    case["extra"] = " -multi_d true 1e-9 %.2f 0.05 1.0\n" % por
+    return case
+
+
+def check_mcd_nmix(case, res):
+    """the number of mixruns init_mix returned for explicit MCD equals the model's (computed from the diffc_max the engine
+    had at that moment), hence (theorem mcd_substeps_bound_every_interface) every interface is stable"""
+    st = engine_status(res)
+    if st:
+        return dict(status=st, detail=res.get("err", "")[-300:])
+    im = res.get("initmix")
+    if not im:
+        return dict(status="no-initmix-report", detail=res.get("warn", "")[-200:])
+    cfg = case_cfg(case)
+    cfg["timest"] = Fr(float.fromhex(im["timest"]))
+    dmax = Fr(float.fromhex(im["diffc_max"]))
+    sub = Fr(float.fromhex(im["mcd_substeps"]))
+    nm, mx, fm = mcd_nmix(cfg, dmax, sub)
+    L = cfg["lens"]
+    worst = max([dmax * cfg["timest"] / (((L[k] + L[k + 1]) / 2) ** 2) for k in range(len(L) - 1)] or [Fr(0)])
+    if im["nmix"] != nm:
+        if near_integer(fm) or (sub > 1 and near_integer(fm * sub)):
+            return dict(status="nmix-rounding-ambiguous", detail="")
+        return dict(status="mismatch", what="MCD mixruns", observed=im["nmix"], expected=nm,
+                    detail="diffc_max=%.6g timest=%.6g: largest interface Fourier number %.4g needs > %.4g sub-steps"
+                           % (float(dmax), float(cfg["timest"]), float(worst), float(Fr(3, 2) * worst)),
+                    coq=(dmax, sub, im["nmix"]))
+    return dict(status="ok", nmix=nm, detail="", coq=(dmax, sub, im["nmix"]))
+
+
+def coq_mcd_term(case, dmax, sub, reported):
+    return "(McdMixProofs.check_mcd_nmix %s %s %s (%d)%%Z)" % (coq_cfg(case), qc(dmax), qc(sub), reported)
+
+
 # the defect found while building this check (notes/C11.md, finding 1); fixed input, stable key
 PREFIX_DEFECT_KEY = "multi_D-neg-conc-repair-prefix-match"
 
@@ -727,7 +922,7 @@ def prefix_defect_case():
 
 CHECKS = {"tracer": lambda case, res: compare_tracer_case(case, res),
           "rich-model": lambda case, res: compare_tracer_case(case, res, elcols=case["elcols"]),
-          "range": check_range, "inventory": check_inventory, "exact-shift": check_exact_shift}
+          "range": check_range, "inventory": check_inventory, "exact-shift": check_exact_shift, "mcd-nmix": check_mcd_nmix}
 
 
 def case_text(case):
